@@ -370,7 +370,9 @@ static void run_big(Json& js, vh::Rng& rng, long budget, int maxn) {
 
 static void run_czt(Json& js, vh::Rng& rng, long budget) {
     for (long t = 0; t < budget; ++t) {
-        const int n = (int)rng.range(1, 400), m = (int)rng.range(1, 400);
+        const int n = (int)rng.range(1, 400);
+        // square transforms (m = n) and near-square ones are the common use (zoom FFT): one case in three
+        const int m = (t % 3 == 1) ? std::max(1, n + (int)rng.range(-1, 1) * (int)rng.range(0, 1)) : (int)rng.range(1, 400);
         const LD wa = (LD)(rng.unif() * 2 - 1) * PI_L * (rng.coin() ? 1.0 : 0.05);
         const LD amag = 0.5 + 1.5 * rng.unif() * (rng.coin() ? 1 : 0) + (rng.coin() ? 0 : 0.5);
         const LD aarg = (LD)(rng.unif() * 2 - 1) * PI_L;
